@@ -18,14 +18,14 @@ func init() {
 	Descriptions["C08"] = "Ordering/pairing rules on the per-connection goroutine of (*Server).Run, its deferred teardown, (*conn).close and the per-request goroutine of serveRequests: " +
 		"C08-funnel (teardown defer registered before anything that can exit), C08-sequence (requestsWg.Wait -> netConn.Close -> onCloseHandler(id), each exactly once, callback attempted on every path), " +
 		"C08-only (close / netConn.Close / onCloseHandler called nowhere else), C08-paired (every requestsWg.Add(1) immediately followed by a go whose first action defers Done; Done nowhere else), " +
-		"C08-current (Close applied to conn.netConn loaded after Wait), C08-interruptible (handlers blocked in socket I/O are interrupted on shutdown until the teardown has waited for them: rules C11-waker / -first / -lifetime / C11-deadline-kept, without which Wait -> Close -> OnClose is never reached on Stop). Decides exactly-once and ordering on every exit path; does not decide the goroutine/descriptor census."
+		"C08-current (Close applied to conn.netConn loaded after Wait), C08-interruptible (handlers blocked in socket I/O are interrupted on shutdown until the teardown has waited for them: rules C11-waker / -first / -lifetime / C11-deadline-kept, without which Wait -> Close -> OnClose is never reached on Stop), C08-accepted-closed (a connection the accept loop does not hand to the connection goroutine is closed by the loop: rule C12-accounted). Decides exactly-once and ordering on every exit path; does not decide the goroutine/descriptor census."
 	Descriptions["C09"] = "C09-counter (connID given to newConn is a loop induction register phi(0,v+1), incremented once per iteration, never a shared cell), " +
 		"C09-immutable (conn.connID and Request.conn stored only by their constructors from parameters), C09-getter (ConnectionID returns r.conn.connID), " +
 		"C09-onclose (argument of onCloseHandler is a copy of the value given to newConn in the same iteration). Uniqueness within one Run; not across several Run calls or after overflow."
 	Descriptions["C12"] = "C12-done-last (connWg.Done ordered after conn.close and onCloseHandler on every path of the per-connection goroutine), " +
 		"C12-listener-release (every return of Run after a successful net.Listen closes the listener unless the path is the listener-closed accept error), " +
 		"C12-accounted (no goroutine started by Run other than the per-connection one is handed an accepted connection), C12-idempotent (Stop's only error return is guarded by the not-already-closed test), C12-stop-order (listener.Close and cancel precede connWg.Wait). " +
-		"C12-add-vs-wait (connWg.Add is ordered with Stop's cancel+Wait by Server.mu and a not-shut-down test in the same critical section). Does not decide kernel-level port state."
+		"C12-add-vs-wait (connWg.Add is ordered with Stop's cancel+Wait by Server.mu and a not-shut-down test in the same critical section), C12-accounted (no goroutine other than the accounted one is handed an accepted connection; from the success edge of Accept every path that leaves the iteration starts that goroutine or closes the socket), C12-nonneg (after a release neither a second release nor the goroutine start is reached without a new Add). Thin wrappers around connWg.Add(1) / Done() are followed. Does not decide kernel-level port state."
 }
 
 // ------------------------------------------------------------------ C08
@@ -47,6 +47,7 @@ func onCloseNotifier(f *ssa.Function) (int, bool) {
 		return 0, false
 	}
 	var oc ssa.CallInstruction
+	var dones []ssa.CallInstruction
 	n := 0
 	other := false
 	for _, ci := range an.Calls(f) {
@@ -56,12 +57,21 @@ func onCloseNotifier(f *ssa.Function) (int, bool) {
 			n++
 			oc = ci
 		case cc.IsInvoke() && an.TypeIs(cc.Value.Type(), "github.com/hashicorp/go-hclog", "Logger"):
+		case isWG(cc, "Done", G, "Server", "connWg") && isCall(ci):
+			// the notifier may finish the connection's bookkeeping as well (connWg.Done after the callback: its
+			// place is decided by rule C12-done-last)
+			dones = append(dones, ci)
 		default:
 			other = true
 		}
 	}
 	if n != 1 || other || !isCall(oc) {
 		return 0, false
+	}
+	for _, d := range dones {
+		if an.Search(an.After(d), isInstr(oc), nil) != nil {
+			return 0, false
+		}
 	}
 	idx := -1
 	for i, p := range f.Params {
@@ -73,8 +83,23 @@ func onCloseNotifier(f *ssa.Function) (int, bool) {
 		return 0, false
 	}
 	an.Instrs(f, func(in ssa.Instruction) {
-		if _, isSt := in.(*ssa.Store); isSt {
-			other = true
+		if st, isSt := in.(*ssa.Store); isSt {
+			// (the argument list of a log call is assembled in a local array)
+			root := st.Addr
+			for {
+				if ia, ok := root.(*ssa.IndexAddr); ok {
+					root = ia.X
+					continue
+				}
+				if fa, ok := root.(*ssa.FieldAddr); ok {
+					root = fa.X
+					continue
+				}
+				break
+			}
+			if _, local := root.(*ssa.Alloc); !local {
+				other = true
+			}
 		}
 	})
 	if other {
@@ -89,6 +114,7 @@ func onCloseNotifier(f *ssa.Function) (int, bool) {
 		return ok
 	}
 	// a return that skips the call is under "handler == nil"; the call is never repeated
+	skips := false
 	for _, ret := range an.Returns(f) {
 		if an.Search(an.Entry(f), isInstr(ret), isInstr(oc)) != nil {
 			nilSide := false
@@ -102,8 +128,26 @@ func onCloseNotifier(f *ssa.Function) (int, bool) {
 				}
 			}
 			if !nilSide {
-				return 0, false
+				skips = true
 			}
+		}
+	}
+	if skips {
+		// `if h := s.onCloseHandler; h != nil { h(id) }; <rest>`: the paths that skip the call all leave the one nil test
+		// on its nil side - from its non-nil side every path to a return passes the call
+		guards := ifsOn(f, isHandlerNil)
+		if len(guards) != 1 {
+			return 0, false
+		}
+		g := guards[0]
+		cond, _ := an.Not(g.If.Cond)
+		_, trueMeansNil, _ := an.NilCheck(cond)
+		nonNil := succOn(g.If, trueMeansNil == g.Neg)
+		if an.Search(an.Point{B: nonNil, I: 0}, an.IsReturn, isInstr(oc)) != nil {
+			return 0, false
+		}
+		if an.Search(an.Entry(f), an.IsReturn, or(isInstr(g.If), isInstr(oc))) != nil {
+			return 0, false
 		}
 	}
 	if an.Search(an.After(oc), isInstr(oc), nil) != nil {
@@ -431,7 +475,7 @@ func checkC08(c *Ctx) {
 			if isAdd(cc) {
 				nAdd++
 				key := fname(f) + ": requestsWg.Add"
-				k, isConst := an.IntConst(cc.Args[1])
+				k, isConst := int64(1), wgAddIsOne(ci)
 				switch {
 				case f != m.serve:
 					R.Fail("C08-paired", key, c.pos(ci), "requestsWg.Add is called outside the read loop's goroutine; it must happen-before the teardown's Wait")
@@ -534,6 +578,11 @@ func checkC08(c *Ctx) {
 	}
 	// ---- C08-onclose-id: "calls the OnClose handler exactly once with that connection's ID": the argument is the ID this
 	// connection was given (rule C09-onclose)
+	// ---- C08-accepted-closed: "for every accepted connection ... the server closes the socket": a connection the accept
+	// loop does not hand to the connection goroutine is closed by the loop itself (rule C12-accounted, imported)
+	c.importRules(checkC12, func(o report.Obligation) bool {
+		return o.Rule == "C12-accounted" && strings.Contains(o.Construct, "served or closed")
+	}, "C08-accepted-closed", "")
 	if c.importRules(checkC09, func(o report.Obligation) bool { return o.Rule == "C09-onclose" }, "C08-onclose-id", " - OnClose is told about another connection than the one that ended") > 0 {
 		c.R.Floor("C08-onclose-id", 1)
 	}
@@ -1010,6 +1059,17 @@ func isClosedAtom(v ssa.Value) bool {
 				if v, isC := an.BoolConst(res); isC && !v {
 					continue // e.g. `if err == nil { return false }`
 				}
+				if v, isC := an.BoolConst(res); isC && v {
+					// `if <test>(err) { return true }`: a return of true under one of the tests
+					if hasFact(ret.Block(), true, func(x ssa.Value) bool {
+						ic, isCall := x.(*ssa.Call)
+						return isCall && ic.Common().StaticCallee() != f && isClosedAtom(ic)
+					}) {
+						continue
+					}
+					all = false
+					continue
+				}
 				// `return err != nil && <test>(err)`: a phi of false and the test
 				vals := []ssa.Value{res}
 				if phi, isPhi := res.(*ssa.Phi); isPhi {
@@ -1182,6 +1242,89 @@ func checkC12(c *Ctx) {
 		}
 		R.Count("C12-accounted/go-statements", n)
 		R.Floor("C12-accounted", 1)
+		// ... and an accepted connection that is not handed to the per-connection goroutine is closed by the accept loop
+		// itself: from the success edge of Accept every path that leaves the iteration (return, next iteration) without
+		// starting the connection goroutine closes the socket. The failure edge of newConn is exempt: newConn refuses only
+		// nil arguments and a zero ID, which Run never passes (NewServer installs context, logger and router; rule C09-counter).
+		if m.accept != nil && m.accept.Parent() == m.run && m.connGo != nil {
+			errEdge := func(call ssa.Value, wantNil bool) []*ssa.BasicBlock {
+				var out []*ssa.BasicBlock
+				for _, b := range m.run.Blocks {
+					iff, isIf := b.Instrs[len(b.Instrs)-1].(*ssa.If)
+					if !isIf {
+						continue
+					}
+					cond, neg := an.Not(iff.Cond)
+					x, trueMeansNil, isNC := an.NilCheck(cond)
+					if !isNC {
+						continue
+					}
+					ex, isEx := an.StripX(x).(*ssa.Extract)
+					if !isEx || ex.Tuple != call || ex.Index != ex.Tuple.Type().(*types.Tuple).Len()-1 {
+						continue
+					}
+					nilSucc := 0
+					if !trueMeansNil {
+						nilSucc = 1
+					}
+					if neg {
+						nilSucc = 1 - nilSucc
+					}
+					if wantNil {
+						out = append(out, b.Succs[nilSucc])
+					} else {
+						out = append(out, b.Succs[1-nilSucc])
+					}
+				}
+				return out
+			}
+			okEdges := errEdge(m.accept, true)
+			exempt := map[*ssa.BasicBlock]bool{}
+			if m.newConn != nil {
+				for _, b := range errEdge(m.newConn, false) {
+					exempt[b] = true
+				}
+			}
+			closes := func(in ssa.Instruction) bool {
+				ci, isCI := in.(ssa.CallInstruction)
+				if !isCI || isGo(ci) {
+					return false
+				}
+				cc := ci.Common()
+				if cc.IsInvoke() && cc.Method.Name() == "Close" && fromAccept(cc.Value) {
+					return true
+				}
+				if g := an.StaticCallee(cc); g != nil && an.InModule(g) {
+					for ai, a := range cc.Args {
+						if !fromAccept(a) || ai >= len(g.Params) {
+							continue
+						}
+						if fname(g) == "(*conn).close" {
+							return true
+						}
+						for _, gi := range an.Calls(g) {
+							gc := gi.Common()
+							if gc.IsInvoke() && gc.Method.Name() == "Close" && an.Strip(gc.Value) == ssa.Value(g.Params[ai]) {
+								return true
+							}
+						}
+					}
+				}
+				return false
+			}
+			head := loopHeadOf(m.accept)
+			leaves := or(an.IsReturn, func(in ssa.Instruction) bool { return head != nil && in.Block() == head && an.PointOf(in).I == 0 })
+			avoid := or(isInstr(m.connGo), closes, func(in ssa.Instruction) bool { return exempt[in.Block()] })
+			key := "(*Server).Run: an accepted connection is served or closed"
+			if len(okEdges) == 0 {
+				R.Unknown("C12-accounted", key, c.pos(m.accept), "no test of Accept's error found in Run: the success edge cannot be located")
+			}
+			for _, b := range okEdges {
+				w := an.Search(an.Point{B: b, I: 0}, leaves, avoid)
+				R.Check(w == nil, "C12-accounted", key, c.pos(m.accept), "every path from Accept's success edge starts the connection goroutine or closes the socket before leaving the iteration",
+					"a connection is accepted and then neither handed to the connection goroutine nor closed: it stays open after Stop and Run have returned and OnClose is never called for it: "+c.trail(w))
+			}
+		}
 	}
 
 	// ---- C12-done-last
@@ -1208,7 +1351,81 @@ func checkC12(c *Ctx) {
 	} else {
 		d := inConn[0]
 		key := fname(d.Parent()) + ": connWg.Done after close and OnClose"
+		// nothing but logging after Done
+		notLog := func(in ssa.Instruction) bool {
+			ci, isC := in.(ssa.CallInstruction)
+			if !isC {
+				return false
+			}
+			cc := ci.Common()
+			if cc.IsInvoke() && an.TypeIs(cc.Value.Type(), "github.com/hashicorp/go-hclog", "Logger") {
+				return false
+			}
+			// bookkeeping that cannot block or call back into user code: atomic counters, time, formatting
+			if f := cc.StaticCallee(); f != nil {
+				switch an.FuncPkgPath(f) {
+				case "sync/atomic", "time", "fmt", "strconv":
+					return false
+				}
+			}
+			if _, isB := cc.Value.(*ssa.Builtin); isB {
+				return false
+			}
+			// an accessor of the module that only returns a field (e.g. the connection ID for the log line)
+			if g := an.StaticCallee(cc); g != nil && an.InModule(g) {
+				if _, _, isGetter := an.FieldGetter(g); isGetter {
+					return false
+				}
+			}
+			return true
+		}
+		// the tail of the teardown may live in a helper (`s.connClosed(id, err)`: report OnClose, then Done): the helper is
+		// called from nowhere else, by the teardown, after conn.close() on every path
+		var tailCall ssa.CallInstruction
+		if H := d.Parent(); H != m.teardown && H.Parent() == nil {
+			var sites []ssa.CallInstruction
+			for _, f := range c.shippedFuncs(G) {
+				for _, ci := range an.Calls(f) {
+					if an.StaticCallee(ci.Common()) == H {
+						sites = append(sites, ci)
+					}
+				}
+			}
+			if len(sites) == 1 && sites[0].Parent() == m.teardown && isCall(sites[0]) {
+				tailCall = sites[0]
+			}
+		}
 		switch {
+		case tailCall != nil && isCall(d):
+			H := d.Parent()
+			ok := true
+			if w := an.Search(an.Entry(m.teardown), isInstr(tailCall), isInstr(m.closeCall)); w != nil {
+				ok = false
+				R.Fail("C12-done-last", key, c.pos(d), fname(H)+", which calls connWg.Done(), can run before the connection is closed: "+c.trail(w))
+			}
+			if w := an.Search(an.Entry(m.teardown), an.IsReturn, isInstr(tailCall)); w != nil {
+				ok = false
+				R.Fail("C12-done-last", key, c.pos(d), "a path through the teardown never calls "+fname(H)+" and so never connWg.Done(): Stop would wait forever: "+c.trail(w))
+			}
+			if w := an.Search(an.Entry(H), an.IsReturn, isInstr(d)); w != nil {
+				ok = false
+				R.Fail("C12-done-last", key, c.pos(d), "a path through "+fname(H)+" never calls connWg.Done(): Stop would wait forever: "+c.trail(w))
+			}
+			if w := an.Search(an.After(d), or(callPred(isOnClose), isInstr(d)), nil); w != nil {
+				ok = false
+				R.Fail("C12-done-last", key, c.pos(d), "connWg.Done() runs before OnClose has been called (or twice): "+c.trail(w))
+			}
+			if w := an.Search(an.After(d), notLog, nil); w != nil && ok {
+				ok = false
+				R.Fail("C12-done-last", key, c.pos(d), "work other than logging follows connWg.Done(): "+c.trail(w))
+			}
+			if w := an.Search(an.After(tailCall), or(notLog, isInstr(m.closeCall), callPred(isOnClose)), nil); w != nil && ok {
+				ok = false
+				R.Fail("C12-done-last", key, c.pos(tailCall), "work other than logging follows the call of "+fname(H)+" (which has called connWg.Done()): "+c.trail(w))
+			}
+			if ok {
+				R.OK("C12-done-last", key, c.pos(d), "Done is the last effect of "+fname(H)+", which the teardown calls last, after conn.close() (Wait+Close), on every path")
+			}
 		case d.Parent() == m.teardown && isCall(d):
 			after := or(isInstr(m.closeCall), callPred(isOnClose))
 			ok := true
@@ -1219,34 +1436,6 @@ func checkC12(c *Ctx) {
 			if w := an.Search(an.Entry(m.teardown), an.IsReturn, isInstr(d)); w != nil {
 				ok = false
 				R.Fail("C12-done-last", key, c.pos(d), "a path through the teardown never calls connWg.Done(): Stop would wait forever: "+c.trail(w))
-			}
-			// nothing but logging after Done
-			notLog := func(in ssa.Instruction) bool {
-				ci, isC := in.(ssa.CallInstruction)
-				if !isC {
-					return false
-				}
-				cc := ci.Common()
-				if cc.IsInvoke() && an.TypeIs(cc.Value.Type(), "github.com/hashicorp/go-hclog", "Logger") {
-					return false
-				}
-				// bookkeeping that cannot block or call back into user code: atomic counters, time, formatting
-				if f := cc.StaticCallee(); f != nil {
-					switch an.FuncPkgPath(f) {
-					case "sync/atomic", "time", "fmt", "strconv":
-						return false
-					}
-				}
-				if _, isB := cc.Value.(*ssa.Builtin); isB {
-					return false
-				}
-				// an accessor of the module that only returns a field (e.g. the connection ID for the log line)
-				if g := an.StaticCallee(cc); g != nil && an.InModule(g) {
-					if _, _, isGetter := an.FieldGetter(g); isGetter {
-						return false
-					}
-				}
-				return true
 			}
 			if w := an.Search(an.After(d), notLog, nil); w != nil && ok {
 				ok = false
@@ -1305,7 +1494,7 @@ func checkC12(c *Ctx) {
 	head := loopHeadOf(m.accept)
 	for _, ci := range adds {
 		key := fname(ci.Parent()) + ": connWg.Add(1) paired with the connection goroutine"
-		k, isK := an.IntConst(ci.Common().Args[1])
+		k, isK := int64(1), wgAddIsOne(ci)
 		// where, in Run, the place is reserved: the Add itself, or the call of a helper that
 		// reports (bool) whether it reserved a place
 		var at ssa.Instruction = ci // the reserving instruction in Run
@@ -1356,6 +1545,14 @@ func checkC12(c *Ctx) {
 			ok, why = false, "a path after connWg.Add(1) neither starts the connection goroutine nor gives the place back: Stop would wait forever: "+c.trail(w)
 		}
 		R.Check(ok, "C12-done-last", key, c.pos(ci), sprintf("every connection goroutine start is preceded by this Add(1); %d release site(s) give the place back on paths that start no goroutine", len(releases)), why)
+		// a place is given back at most once: after a release neither a second release nor the start of the connection
+		// goroutine (whose teardown gives the place back again) is reached without reserving anew; otherwise the counter
+		// can go negative, and a negative WaitGroup counter panics
+		for _, r := range releases {
+			w := an.SearchCorr(an.After(r), or(isInstr(m.connGo), isRel), isInstr(at), nil)
+			R.Check(w == nil, "C12-nonneg", fname(r.Parent())+": place given back at most once", c.pos(r), "after this connWg.Done() neither another Done nor the start of a connection goroutine is reached without a new Add(1)",
+				"after this connWg.Done() the place can be given back a second time (directly, or by the teardown of a connection goroutine started without a new Add(1)): the counter goes negative and sync.WaitGroup panics: "+c.trail(w))
+		}
 	}
 	if len(adds) != 1 {
 		R.Fail("C12-done-last", "connWg.Add: single site", c.P.Pos(m.run.Pos()), sprintf("expected one connWg.Add site, found %d", len(adds)))
